@@ -81,7 +81,7 @@ class Prop(BaseProp):
         plan = [(1, 5, 0.0, 0), (3, 8, 0.3, 0), (6, 12, 0.5, 2), (10, 20, 0.2, 3), (20, 30, 0.3, 4), (40, 12, 0.1, 6), (2, 300, 0.05, 1), (8, 3, 0.8, 2),
                 (15, 10, 0.0, 5), (5, 40, 0.4, 2)]
         if big:
-            plan = plan * 3 + [(100, 50, 0.2, 10), (4, 3000, 0.01, 2)]
+            plan = plan * 3 + [(60, 40, 0.2, 10), (4, 800, 0.01, 2)]
         for i, (ncas, mc, dup, pg) in enumerate(plan):
             cas = self._shard_ops(rng, ncas, mc, dup, pg)
             ops = [sg.fmt_cas(c) for c in cas]
